@@ -1,8 +1,10 @@
 (* Property C08 - the plane-type state machine follows the documented table.
 
    [observed]   : generated on every check from the real classes of /repo (Gen/PTypeObserved.v):
-                  wavefront state (ptype, carries tilt) x (Plane(ptype=p) | public plane class |
-                  propagate_dft / propagate_fft), enumerated completely.
+                  wavefront state (ptype, content: fields / fields with tilt / no fields) x
+                  (Plane(ptype=p) | public plane class, aperture overlapping or disjoint |
+                  propagate_dft / propagate_fft), enumerated completely, every multiplication also
+                  with a plane object that was used before.
    [doc_mul], [doc_prop], [doc_class_ptype] : generated on every check from the RST tables of
                   wavefront.rst, diffraction.rst, planes.rst (Gen/DocTable.v).
    [documented] : the machine those tables describe (Model/PType.v:doc_machine,
@@ -12,24 +14,25 @@
    The finite statements quantify over the finite inductive types themselves. *)
 From LV Require Import Model.PTypeSpec Proofs.PTypeP.
 
-(* (a) all 15 cells of "Multiplication rules", for either value of the tilt bit: the product has the
-   documented type, or is refused with TypeError ([erase] drops the tilt bit, [tdoc w None] is
+(* (a) all 15 cells of "Multiplication rules", for every content of the wavefront (no fields at all
+   included) and whether or not the plane's aperture meets the light: the product has the
+   documented type, or is refused with TypeError ([erase] drops the content, [tdoc w None] is
    "TypeError, type w kept"; that a refusal keeps the whole state is C08_refused_step_keeps_state) *)
-Theorem C08_mul_table_matches_doc : forall w tl p,
-  erase (observed_mul (St w tl) p) = tdoc w (doc_mul w p).
+Theorem C08_mul_table_matches_doc : forall w b p clip,
+  erase (observed_mul (St w b) p clip) = tdoc w (doc_mul w p).
 Proof. exact mul_table_matches_doc. Qed.
 Print Assumptions C08_mul_table_matches_doc.
 
-(* (a) the propagation rows, both routines *)
-Theorem C08_propagation_matches_doc : forall m w,
-  erase (observed_prop m (St w false)) = tdoc w (doc_prop m w).
+(* (a) the propagation rows, both routines, wavefronts without fields included *)
+Theorem C08_propagation_matches_doc : forall m w b, b <> Tilted ->
+  erase (observed_prop m (St w b)) = tdoc w (doc_prop m w).
 Proof. exact propagation_matches_doc. Qed.
 Print Assumptions C08_propagation_matches_doc.
 
 (* ... and on a wavefront that carries fitted tilt: the same, except that propagate_fft may refuse
    it outright (implementation-defined, observed_fft_refuses_tilt) *)
 Theorem C08_propagation_with_tilt : forall m w,
-  erase (observed_prop m (St w true)) =
+  erase (observed_prop m (St w Tilted)) =
   if (match m with Fft => true | Dft => false end) && observed_fft_refuses_tilt
   then TRaises ENotImplementedError w
   else tdoc w (doc_prop m w).
@@ -37,14 +40,14 @@ Proof. exact propagation_with_tilt. Qed.
 Print Assumptions C08_propagation_with_tilt.
 
 (* far-field propagation is permitted only from a pupil or an image and turns one into the other;
-   it is always refused from `none`; the DFT accepts every pupil/image, the FFT every one without
-   tilt *)
+   it is always refused from `none`; the DFT accepts every pupil/image (dark ones too), the FFT
+   every one without tilt *)
 Theorem C08_propagation_only_between_pupil_and_image :
   (forall m s s', observed_prop m s = Yields s' ->
      (ty s = WPupil /\ ty s' = WImage) \/ (ty s = WImage /\ ty s' = WPupil)) /\
-  (forall m tl, exists e, observed_prop m (St WNone tl) = Raises e (St WNone tl)) /\
-  (forall w tl, w <> WNone -> exists s', observed_prop Dft (St w tl) = Yields s') /\
-  (forall w, w <> WNone -> exists s', observed_prop Fft (St w false) = Yields s').
+  (forall m b, exists e, observed_prop m (St WNone b) = Raises e (St WNone b)) /\
+  (forall w b, w <> WNone -> exists s', observed_prop Dft (St w b) = Yields s') /\
+  (forall w b, w <> WNone -> b <> Tilted -> exists s', observed_prop Fft (St w b) = Yields s').
 Proof. exact propagation_only_between_pupil_and_image. Qed.
 Print Assumptions C08_propagation_only_between_pupil_and_image.
 
@@ -64,9 +67,9 @@ Theorem C08_program_types_follow_tables : forall ops s,
 Proof. exact program_types_follow_tables. Qed.
 Print Assumptions C08_program_types_follow_tables.
 
-Theorem C08_untilted_program_types_follow_tables : forall ops w,
-  forallb op_claimed ops = true -> forallb untilting ops = true ->
-  map erase (run_program observed (St w false) ops) = run_types w ops.
+Theorem C08_untilted_program_types_follow_tables : forall ops s,
+  forallb op_claimed ops = true -> forallb untilting ops = true -> tilted s = false ->
+  map erase (run_program observed s ops) = run_types (ty s) ops.
 Proof. exact untilted_program_types_follow_tables. Qed.
 Print Assumptions C08_untilted_program_types_follow_tables.
 
@@ -83,14 +86,16 @@ Definition C08_documented_classes_apply_full : Prop :=
   forall k p, doc_class_ptype k = Some p ->
     observed_class_ptype k = p /\
     (exists w, doc_mul w p <> None) /\
-    (forall w t tl, doc_mul w p = Some t -> exists tl', observed_class_mul k (St w tl) = Yields (St t tl')).
+    (forall w t b clip, doc_mul w p = Some t ->
+       exists b', observed_class_mul k clip (St w b) = Yields (St t b')).
 
 (* proved for all documented classes but Rotate and Flip *)
 Theorem C08_documented_classes_apply_partial : forall k p,
   doc_class_ptype k = Some p -> known_broken k = false ->
     observed_class_ptype k = p /\
     (exists w, doc_mul w p <> None) /\
-    (forall w t tl, doc_mul w p = Some t -> exists tl', observed_class_mul k (St w tl) = Yields (St t tl')).
+    (forall w t b clip, doc_mul w p = Some t ->
+       exists b', observed_class_mul k clip (St w b) = Yields (St t b')).
 Proof. exact documented_classes_apply_partial. Qed.
 Print Assumptions C08_documented_classes_apply_partial.
 
@@ -101,7 +106,7 @@ Print Assumptions C08_documented_classes_apply_refuted.
 
 Theorem C08_rotate_flip_refuted : forall k, known_broken k = true ->
   doc_class_ptype k = Some PTransform /\ observed_class_ptype k = PNone /\
-  forall s, observed_class_mul k s = Raises EAttributeError s.
+  forall clip s, observed_class_mul k clip s = Raises EAttributeError s.
 Proof. exact rotate_flip_refuted. Qed.
 Print Assumptions C08_rotate_flip_refuted.
 
@@ -110,14 +115,19 @@ Theorem C08_programs_with_rotate_refuted :
 Proof. exact programs_with_rotate_refuted. Qed.
 Print Assumptions C08_programs_with_rotate_refuted.
 
-(* non-vacuity: a claimed program that visits all three types, refusals by the table, a tilt and
-   both propagation routines (types only: the tilt bit is implementation-defined) *)
+(* non-vacuity: a claimed program that visits all three types, refusals by the table, a tilt, both
+   propagation routines, a second wavefront and a wavefront that lost all its light (types only:
+   the content is implementation-defined) *)
 Example C08_nonvacuous :
-  let prog := [MulClass KPupil; MulType PImage; Propagate Fft; MulClass KTilt; Propagate Dft;
-               MulClass KImage; MulType PTransform; Propagate Dft; MulClass KPlane] in
+  let prog := [MulClass KPupil false; MulType PImage false; Propagate Fft; MulClass KTilt false;
+               Propagate Dft; MulClass KImage false; MulType PTransform false; Propagate Dft;
+               MulClass KPlane false; Fresh (St WNone Plain); MulClass KPupil false;
+               MulClass KPupil true; Propagate Dft; MulClass KImage false; MulClass KPupil false] in
   forallb op_claimed prog = true /\
-  map erase (run_program observed (St WNone false) prog) =
+  map erase (run_program observed (St WNone Plain) prog) =
     [TYields WPupil; TRaises ETypeError WPupil; TYields WImage; TYields WImage; TYields WPupil;
-     TRaises ETypeError WPupil; TYields WPupil; TYields WImage; TRaises ETypeError WImage] /\
-  run_program documented (St WNone false) prog = run_program observed (St WNone false) prog.
+     TRaises ETypeError WPupil; TYields WPupil; TYields WImage; TRaises ETypeError WImage;
+     TYields WNone; TYields WPupil; TYields WPupil; TYields WImage; TYields WImage;
+     TRaises ETypeError WImage] /\
+  run_program documented (St WNone Plain) prog = run_program observed (St WNone Plain) prog.
 Proof. repeat split. Qed.
